@@ -7,6 +7,9 @@ oracles:        values in row order with blank lines skipped and the requested e
                 (after conversion to the element type) missing; unaffected by the other columns; missing header / non-numeric cell reported with the
                 file line; written header = result names in order, one row per cell; a written file read back gives bit-identical doubles for all
                 non-missing finite numbers (subnormals, extremes, negative zero)
+                directed classes (oracles only): text columns whose cells / header names hold VT, FF, FS/GS/RS, NEL, U+2028/9 and result names holding line breaks
+                (`text_columns`); tables of 150 KiB - 3 MiB with multi-line quoted cells in the text columns (`large_tables`); models that write the file
+                they read, named by another spelling, in several command orders (`in_place_models`)
 known finding:  a missing cell is written as `--`, which cannot be read back (C17-F16-masked-write)
 """
 import csv
@@ -145,6 +148,223 @@ def reread_after_fault(ctx, tmp):
         ctx.case("reread %d %r" % (rep, rows), sample=None)
 
 
+# characters at which `str.splitlines()` ends a line and a text file does not (a file's lines end at LF, CR, CRLF only): inside a cell they are content
+SEPARATORS = [("VT", "\x0b"), ("FF", "\x0c"), ("FS", "\x1c"), ("GS", "\x1d"), ("RS", "\x1e"), ("NEL", "\x85"), ("LS", "\u2028"), ("PS", "\u2029")]
+
+
+def _table(headers, rows, nl="\n"):
+    b = io.StringIO()
+    w = csv.writer(b, lineterminator=nl)
+    w.writerow(headers)
+    w.writerows(rows)
+    return b.getvalue()
+
+
+def _column_wrong(out, want, integer=False):
+    """None when the read `out` is the column `want` (doubles bit for bit, row order, nothing missing, requested element type); else what is wrong"""
+    if out[0] != "ok":
+        return "the read fails: %s %s" % (out[1], " / ".join(out[2].split("\n"))[:160])
+    arr = out[1]
+    if arr.dtype.kind != ("i" if integer else "f"):
+        return "element type %s" % arr.dtype
+    if arr.shape != (len(want),):
+        return "%r cells read, the table has %d data rows" % (arr.shape, len(want))
+    if numpy.ma.getmaskarray(arr).any():
+        return "cells are missing although no missing value was declared"
+    got = numpy.ma.getdata(arr).astype(float).view(numpy.int64)
+    exp = numpy.array(want, dtype=float).view(numpy.int64)
+    if not numpy.array_equal(got, exp):
+        k = int(numpy.nonzero(got != exp)[0][0])
+        return "%d rows differ, first row %d: read %r, the file says %r" % (int((got != exp).sum()), k, numpy.ma.getdata(arr)[k].item(), want[k])
+    return None
+
+
+def text_columns(ctx, tmp):
+    """tables with free-text columns next to the numeric ones: a text cell (or a header name) may hold any character - a vertical tab (a spreadsheet's in-cell
+    break), a form feed (text taken from a PDF), the separators FS/GS/RS, NEL, U+2028/U+2029; a quoted one also line breaks.  The requested column's values
+    come back in row order whatever the other columns hold, a bad cell is reported with its file line (tables without line breaks inside cells: the file
+    line is unambiguous), and a column written by EEMSWrite under a name that holds a line break is found again."""
+    from mpilot.libraries.eems.csv.io import EEMSWrite
+    values = [1.5, -0.0, 2.5, 5e-324, 0.1, -99.0, 1e22, 4.25, 7.0, 1 / 3.0]
+    ints = [3, -1, 0, 12, 7, 7, -40, 5, 1000000, 2]
+    path = os.path.join(tmp, "text.csv")
+    combos = SEPARATORS + [("all", "".join(c for _, c in SEPARATORS)), ("none", "-")]
+    for nm, ch in combos:
+        for nl in ("\n", "\r\n"):
+            # the character alone in a cell, at the start / end / middle of a cell, in a quoted cell (comma, quote) and in header names - of a text column and of a numeric one
+            texts = ["plain text", "page one%spage two" % ch, ch, "ends with%s" % ch, "%sstarts with" % ch, 'a, quoted "cell"%swith it' % ch, "x", "%s%s" % (ch, ch), "last%sbut one" % ch, "the end"]
+            headers = ["remarks", "score", "foot%snote" % ch, "count%sof" % ch]
+            rows = [[t, repr(v), texts[-1 - i], str(k)] for i, (t, v, k) in enumerate(zip(texts, values, ints))]
+            text = _table(headers, rows, nl)
+            write_file(path, text)
+            desc = {"file_text": text, "character_in_the_text_cells": nm}
+            ctx.case("text-columns %s %r" % (nm, nl), sample=None)
+            for field, want, integer in (("score", values, None), (headers[3], [float(k) for k in ints], True), ("score", values, False)):
+                ctx.count("text_column_reads")
+                bad = _column_wrong(read_impl(path, field, None, integer), want, bool(integer))
+                if bad:
+                    ctx.fail("a numeric column next to text columns whose cells hold %s: %s" % (nm, bad), dict(desc, InFieldName=field))
+                    break
+            # the file line of a bad cell (cells hold no line break: row k of the table is line k + 2 of the file)
+            for k in (1, 6, 9):
+                rows2 = [list(r) for r in rows]
+                rows2[k][1] = "n/a"
+                text2 = _table(headers, rows2, nl)
+                write_file(path, text2)
+                out = read_impl(path, "score", None, None)
+                ctx.count("text_column_bad_cell_reads")
+                if not (out[0] == "mp" and out[1] == "InvalidDataFile" and ("line %d." % (k + 2)) in out[2]):
+                    ctx.fail("a non-numeric cell on file line %d (text cells of other columns hold %s) is reported as %s %r" % (k + 2, nm, out[1] if out[0] != "ok" else "a column", out[2][:120] if out[0] != "ok" else ""),
+                             {"file_text": text2, "InFieldName": "score", "character_in_the_text_cells": nm})
+                    break
+    # header names that need CSV quoting because they hold a line break: written by EEMSWrite, every column is found again under its name, bit for bit
+    for names in (["A", "Mean annual\ntemperature"], ["two\nline\nname", "B", "C"], ["trailing\n", "x"], ["x", "\nleading"], ["a\n\nb", "a", "b"], ["k", "line\nbreak, and comma", 'line\nbreak and "quote"'],
+                  ["Mean annual\ntemperature", "Mean annual", "temperature"], ["v\x0bt", "f\x0cf", "l\u2028s"]):
+        cols = [numpy.ma.array([values[(i + 3 * j) % len(values)] for i in range(6)], dtype=float) for j in range(len(names))]
+        wpath = os.path.join(tmp, "names.csv")
+        desc = {"result_names": names, "columns": [c.tolist() for c in cols]}
+        ctx.case("names-with-breaks %r" % (names,), sample=None)
+        try:
+            EEMSWrite("W", []).execute(OutFileName=wpath, OutFieldNames=[eems.Producer(a, nm, False) for a, nm in zip(cols, names)])
+        except Exception as e:
+            ctx.fail("EEMSWrite failed on result names holding line breaks: %s" % type(e).__name__, desc)
+            continue
+        desc["written"] = open(wpath, encoding="utf-8", newline="").read()
+        recs = list(csv.reader(io.StringIO(desc["written"])))
+        if not recs or recs[0] != names or len(recs) != 7:
+            ctx.fail("header %r / %d rows written; the result names in order are %r, 6 cells each" % (recs[:1], len(recs) - 1, names), desc)
+            continue
+        for nm, col in zip(names, cols):
+            ctx.count("reads_by_a_name_with_line_break" if "\n" in nm else "reads_next_to_a_name_with_line_break")
+            bad = _column_wrong(read_impl(wpath, nm, None, None), col.tolist())
+            if bad:
+                ctx.fail("a column written by EEMSWrite under the name %r and read back by that name: %s" % (nm, bad), dict(desc, InFieldName=nm))
+                break
+
+
+def big_table(nrows, variant, flat_until=0, bad=None):
+    """a table of `nrows` rows (a pure function of its arguments): id, notes, value, site, k.  variant "lines": the quoted notes / site cells hold several
+    line breaks (what a spreadsheet export of a remarks column looks like) - most line ends of the file lie inside a cell; "flat" (and the rows before
+    `flat_until`): quoted cells with commas and quotes but no line break, a blank line now and then.  The value cell of row `bad` is not a number.
+    Returns (text, value column, k column, file line of every row)."""
+    vals, ks, lines = [], [], []
+    line = 2
+    b = io.StringIO()
+    w = csv.writer(b, lineterminator="\n")
+    w.writerow(["id", "notes", "value", "site", "k"])
+    for i in range(nrows):
+        v = ((i * 37) % 1009) / 7.0 - 50.0 if i % 11 else DOUBLES[(i // 11) % len(DOUBLES)]
+        k = (i * 7919) % 100003 - 50000
+        if variant == "lines" and i >= flat_until:
+            note = "site %d\nvisit 1: dry\nvisit 2: wet, \"flooded\"\n\nsee sheet %d\n%s\nq\nr\n s\nend" % (i, i % 13, "x" * (i % 57))
+            site = 'plot "%d"\nrow %d\n' % (i % 89, i) if i % 3 else "p%d" % i
+        else:
+            note = 'site %d, surveyed twice; see "sheet %d" %s' % (i, i % 13, "x" * (i % 57))
+            site = "p%d" % i
+            if i % 97 == 50:
+                b.write("\n"); line += 1                # a blank line: skipped, but it is a line of the file
+        w.writerow([i, note, "n/a" if i == bad else repr(v), site, k])
+        vals.append(v); ks.append(k); lines.append(line)
+        line += 1 + note.count("\n") + site.count("\n")
+    return b.getvalue(), vals, ks, lines
+
+
+def large_tables(ctx, tmp):
+    """tables of some hundred KiB to a few MiB (a ladder: a reader that works through the file piece by piece has its seams somewhere) whose text columns hold
+    multi-line quoted cells: both numeric columns come back complete, in row order, bit for bit, whatever the text columns hold; a bad cell far down in a
+    large table is reported with its file line"""
+    path = os.path.join(tmp, "large.csv")
+    for nrows in (1200, 5000, 21000):
+        for variant, nl in (("lines", "\n"), ("flat", "\n")) + ((("lines", "\r\n"),) if nrows == 5000 else ()):
+            text, vals, ks, lines = big_table(nrows, variant)
+            text = text.replace("\n", nl)          # (line breaks inside cells too: a file read in text mode delivers them as \n either way)
+            write_file(path, text)
+            recipe = {"table": "harness.props.c17.big_table(%d, %r)" % (nrows, variant), "line_ends": nl, "bytes": len(text.encode("utf-8")), "rows": nrows, "file_text_starts": text[:700]}
+            ctx.case("large-table %d %s %r" % (nrows, variant, nl), sample=None)
+            ctx.count("large_table_reads:%s" % variant)
+            for field, want, integer in (("value", vals, None), ("k", [float(k) for k in ks], True)):
+                bad = _column_wrong(read_impl(path, field, None, integer), want, bool(integer))
+                if bad:
+                    ctx.fail("a table of %d rows / %d bytes with %s: column %s: %s" % (
+                        nrows, recipe["bytes"], "multi-line quoted cells in its text columns" if variant == "lines" else "quoted text cells and blank lines", field, bad), dict(recipe, InFieldName=field))
+                    break
+            # a non-numeric cell far down: its file line (no line break inside a cell above the bad row - multi-line cells only below it: the line is unambiguous)
+            for k in ((nrows * 9) // 10, nrows - 1):
+                text2, _, _, lines2 = big_table(nrows, variant, flat_until=k + 1, bad=k)
+                write_file(path, text2.replace("\n", nl))
+                out = read_impl(path, "value", None, None)
+                ctx.count("large_table_bad_cell_reads")
+                if not (out[0] == "mp" and out[1] == "InvalidDataFile" and ("line %d." % lines2[k]) in out[2]):
+                    ctx.fail("a table of %d bytes: the non-numeric cell on file line %d is reported as %s %r" % (len(text2), lines2[k], out[1] if out[0] != "ok" else "a column", out[2][:120] if out[0] != "ok" else ""),
+                             dict(recipe, table="harness.props.c17.big_table(%d, %r, flat_until=%d, bad=%d)" % (nrows, variant, k + 1, k), InFieldName="value", bad_cell_on_file_line=lines2[k],
+                                  that_line=text2.split("\n")[lines2[k] - 1][:200]))
+                    break
+
+
+IN_PLACE_SPELLINGS = ["data.csv", "./data.csv", "sub/../data.csv", "ABS", "link.csv", ".//data.csv"]
+
+
+def in_place_models(ctx, tmp):
+    """models that extend a table in place: they read columns from a file and write them, with a derived one, to that same file - named by the same or by
+    another spelling (`./data.csv`, through a folder and back, absolute, through a symbolic link).  The order of the commands in the file is free and the
+    writer may be the only command asked: the columns read are those of the table as it was, the file ends up with the listed header, one row per cell,
+    and reads back bit for bit."""
+    import itertools
+    from mpilot.program import Program
+    rng = ctx.rng
+    A = [0.1, -0.0, 5e-324, 1.7976931348623157e308, 3.0, 2.5]
+    B = [0.2, 1.0, 2.5, -1.0e300, -3.0, 0.25]
+    orders = list(itertools.permutations(range(4)))
+    picks = [(0, 1, 2, 3), (3, 2, 0, 1), (3, 0, 1, 2), (1, 3, 0, 2)] + rng.sample(orders, min(24, ctx.budget(2, 24)))
+    n = 0
+    for order in picks:
+        for how in ("run", "writer-only"):
+            spelling = IN_PLACE_SPELLINGS[n % len(IN_PLACE_SPELLINGS)]
+            rd = IN_PLACE_SPELLINGS[(n // len(IN_PLACE_SPELLINGS)) % 2]
+            n += 1
+            d = os.path.join(tmp, "inplace%d" % (n % 3))
+            os.makedirs(os.path.join(d, "sub"), exist_ok=True)
+            path = os.path.join(d, "data.csv")
+            if os.path.lexists(os.path.join(d, "link.csv")):
+                os.remove(os.path.join(d, "link.csv"))
+            os.symlink("data.csv", os.path.join(d, "link.csv"))
+            original = "A,B\n" + "".join("%r,%r\n" % p for p in zip(A, B))
+            write_file(path, original)
+            out_name = path if spelling == "ABS" else spelling
+            cmds = ['A = EEMSRead(InFileName = "%s", InFieldName = "A")' % rd, 'B = EEMSRead(InFileName = "%s", InFieldName = "B")' % rd, "Total = Sum(InFieldNames = [A, B])",
+                    'Out = EEMSWrite(OutFileName = "%s", OutFieldNames = [B, Total, A])' % out_name]
+            src = "\n".join(cmds[i] for i in order) + "\n"
+            desc = {"source": src, "working_dir_holds": {"data.csv": original, "link.csv": "symbolic link to data.csv", "sub/": "folder"}, "evaluated_by": "Program.run()" if how == "run" else "asking only the writer for its result"}
+            ctx.case("in-place %r %s" % (src, how), sample=None)
+            ctx.count("in_place_models")
+            try:
+                with numpy.errstate(all="ignore"):
+                    p = Program.from_source(src, working_dir=d)
+                    if how == "run":
+                        p.run()
+                    else:
+                        p.commands["Out"].result
+                    total = numpy.ma.getdata(p.commands["Total"].result).tolist()
+            except Exception as e:
+                left = open(path, encoding="utf-8", newline="").read() if os.path.exists(path) else None
+                ctx.fail("a model that reads columns A, B of a table and writes B, Total, A back to the same file (as %r) fails: %s %s; the file now holds %r" % (
+                    out_name, type(e).__name__, " / ".join(str(e).split("\n"))[:160], None if left is None else left[:80]), desc)
+                continue
+            text = open(path, encoding="utf-8", newline="").read()
+            recs = list(csv.reader(io.StringIO(text)))
+            desc["written"] = text
+            if not recs or recs[0] != ["B", "Total", "A"] or len(recs) != len(A) + 1:
+                ctx.fail("the table extended in place has header %r and %d rows; listed were B, Total, A with %d cells" % (recs[:1], len(recs) - 1, len(A)), desc)
+                continue
+            for nm, want in (("A", A), ("B", B), ("Total", total)):
+                bad = _column_wrong(read_impl(path, nm, None, None), want)
+                if bad:
+                    ctx.fail("the table extended in place, column %s read back: %s" % (nm, bad), dict(desc, InFieldName=nm))
+                    break
+            if [bits(x) for x in total] != [bits(a + b) for a, b in zip(A, B)]:
+                ctx.fail("the columns read from the table were not its columns: Total is %r, the table held A = %r, B = %r" % (total, A, B), desc)
+
+
 def run(ctx):
     ctx.check_proofs(["MPilot.Props.C17"])
     model = common.Model()
@@ -258,6 +478,9 @@ def run(ctx):
                 ctx.disagree("csvread", desc, "%s %s %s" % (out[0], out[1] if out[0] != "ok" else "", out[2][:80] if len(out) > 2 and out[0] != "ok" else ""), ans)
     write_checks(ctx, model, tmp)
     reread_after_fault(ctx, tmp)
+    text_columns(ctx, tmp)
+    large_tables(ctx, tmp)
+    in_place_models(ctx, tmp)
     return ctx.finish(
         rule="tables of 0-40 rows x 1-6 columns with header names that need CSV quoting (comma, quote, line break, blanks, empty, duplicates), blank lines, cells in "
              "many numeric spellings and doubles from subnormal to extreme, a third of the tables with non-numeric cells / ragged rows; each read with a random column, "
